@@ -99,7 +99,7 @@ def run(ctx, chk):
         # "displays as the same letters": the comparison is made on what Display prints, so the clause rests on Display being the
         # per-symbol to_char string of the whole content (C01's S-display rows) and on the iteration rows the conversions collect from
         import core
-        core.import_rows(chk, cfg, "C01", "props.C01", ("S-display",))
+        core.import_rows(chk, cfg, "C01", "props.C01", ("S-display", "S-parse"))
         # conversions collect the source's symbols: iter() rows (C11) and one push per item (C06)
         core.import_rows(chk, cfg, "C11", "props.C11", ("G02", "G05c/into_iter", "S-glue"))
         core.import_rows(chk, cfg, "C06", "props.C06", ("S-extend", "R08"))
